@@ -75,7 +75,7 @@ struct Rep { // reporting facade of one case
     }
 };
 static double CPU_LIMIT_S = 0.1;     // user CPU; a healthy case needs < 1 ms
-static double CONFIRM_LIMIT_S = 1.5; // a suspected hang is confirmed alone under this limit
+static double CONFIRM_LIMIT_S = 1.0; // a suspected hang is confirmed alone under this limit
 static void arm_cpu_limit(double s)
 {
     struct itimerval it;
@@ -908,6 +908,17 @@ static std::vector<Pt> cell_points(const std::vector<const Basic *> &trees)
     return pts;
 }
 
+// kind for the set-function signatures: a Union whose interval/finite members touch or overlap
+// (the library left them unmerged) is a class of its own
+static std::string fkind(const Basic &s)
+{
+    if (is_a<Union>(s)) {
+        std::vector<Piece> v;
+        if (to_pieces(s, v) && normalize(v).size() < v.size())
+            return "Union-with-touching-members";
+    }
+    return kind(s);
+}
 static void check_func(Rep &rp, Ctx &c, int fn, int is)
 {
     const State &A = SS.S[is];
@@ -923,12 +934,12 @@ static void check_func(Rep &rp, Ctx &c, int fn, int is)
             rp.outcome(std::string(FNN[fn]) + ":throw:" + x.what());
             return;
         } catch (std::exception &x) {
-            rp.violation(std::string("exception:") + FNN[fn] + "(" + kind(s) + ")", recipe + " threw " + x.what());
+            rp.violation(std::string("exception:") + FNN[fn] + "(" + fkind(s) + ")", recipe + " threw " + x.what());
             return;
         }
         if (r.is_null()) {
             // the visitor's fallback leaves the result unset
-            rp.violation(std::string("null-result:") + FNN[fn] + "(" + kind(s) + ")", recipe + " returned a null RCP");
+            rp.violation(std::string("null-result:") + FNN[fn] + "(" + fkind(s) + ")", recipe + " returned a null RCP");
             return;
         }
         ExtReal want, got;
@@ -944,7 +955,7 @@ static void check_func(Rep &rp, Ctx &c, int fn, int is)
         }
         c.count(K_F_JUDGED);
         if (cmp(want, got) != 0)
-            rp.violation(std::string(FNN[fn]) + "(" + kind(s) + ")",
+            rp.violation(std::string(FNN[fn]) + "(" + fkind(s) + ")",
                          recipe + " = " + sstr(r) + " but the set [" + A.key + "] has " + FNN[fn] + " " + er_str(want));
         return;
     }
@@ -956,11 +967,11 @@ static void check_func(Rep &rp, Ctx &c, int fn, int is)
         rp.outcome(std::string(FNN[fn]) + ":throw:" + x.what());
         return;
     } catch (std::exception &x) {
-        rp.violation(std::string("exception:") + FNN[fn] + "(" + kind(s) + ")", recipe + " threw " + x.what());
+        rp.violation(std::string("exception:") + FNN[fn] + "(" + fkind(s) + ")", recipe + " threw " + x.what());
         return;
     }
     if (r.is_null()) {
-        rp.violation(std::string("null-result:") + FNN[fn] + "(" + kind(s) + ")", recipe + " returned a null RCP");
+        rp.violation(std::string("null-result:") + FNN[fn] + "(" + fkind(s) + ")", recipe + " returned a null RCP");
         return;
     }
     std::function<int(const Pt &)> exp;
@@ -982,7 +993,7 @@ static void check_func(Rep &rp, Ctx &c, int fn, int is)
         judged = true;
         c.count(K_POINTS);
         if (want != got) {
-            rp.violation(std::string(FNN[fn]) + "(" + kind(s) + ")",
+            rp.violation(std::string(FNN[fn]) + "(" + fkind(s) + ")",
                          recipe + " = " + sstr(r) + " [" + key(*r) + "] but the " + FNN[fn] + " is " + shown + "; point " + p.name
                              + " expected " + mstr(want) + ", returned set denotes " + mstr(got));
             break;
@@ -1212,7 +1223,7 @@ int main(int argc, char **argv)
     fc.name = "F:setfunc(S1)";
     fc.n = n1 * NFN;
     fc.desc = [&](long long i) { return std::string(FNN[i % NFN]) + "(" + SS.S[i / NFN].recipe + ")"; };
-    fc.cls = [&](long long k) { return std::string(FNN[k % NFN]) + "(" + kind_deep(*SS.S[k / NFN].e) + ")"; };
+    fc.cls = [&](long long k) { return std::string(FNN[k % NFN]) + "(" + kind_deep(*SS.S[k / NFN].e) + (fkind(*SS.S[k / NFN].e) != kind(*SS.S[k / NFN].e) ? "-touching" : "") + ")"; };
     fc.runcase = [&](long long k, Rep &rp, Ctx &c) { check_func(rp, c, k % NFN, k / NFN); };
     if (!past_deadline()) {
         run_layer(fc, false);
